@@ -18,9 +18,11 @@ RULE = ("histories over 1-4 keys spread across 1-6 select-list positions and 0-1
         "variable map (a third of the queries also read registers inside other expressions: counters, register copies, computed columns), each query flat or as a CTE body / derived table / UNION ALL branch / under LIMIT-OFFSET; rows (GETVAR columns, no SETVAR column) and the caller's final map are compared with the Lean store model "
         "run on the row-major, left-to-right history; non-trivial = a key read after >=2 writes, or across rows/queries")
 
-KEYS = ["k1", "k2", "k3", "weird key", "1", "2.5", "true"]
+KEYS = ["k1", "k2", "k3", "weird key", "1", "2.5", "true", "k1", "k2", "1e+06", "7e+06", "1e+19", "1e+20"]
 # how a key is written in SQL: string literals, and non-string keys whose %v text is the key
-KEY_SQL = {"1": ["num", 1], "2.5": num(2.5), "true": ["bool", True]}
+KEY_SQL = {"1": ["num", 1], "2.5": num(2.5), "true": ["bool", True],
+           # (whole numbers whose %v text is not their decimal spelling; two distinct names beyond the int64 range)
+           "1e+06": num(1000000), "7e+06": num(7000000), "1e+19": num(1e19), "1e+20": num(1e20)}
 
 
 def gen_query(rnd, qi):
@@ -115,7 +117,7 @@ def explore(chk, rnd, tier):
     total = 0
     seqs = []
     for _ in range(n):
-        init = {k: rnd.choice([0, "init", None]) for k in rnd.sample(KEYS, rnd.randint(0, 2))}
+        init = {k: rnd.choice([0, "init", None]) for k in rnd.sample(sorted(set(KEYS)), rnd.randint(0, 2))}
         init["cnt"] = rnd.choice([0, 0, 5])
         seqs.append({"cur": enc_val(init), "lean": enc_val(init), "qs": [gen_query(rnd, qi) for qi in range(rnd.randint(1, 4))]})
     # round j runs the j-th query of every sequence in one batch, threading each sequence's shared map
